@@ -28,6 +28,8 @@ def props_of(b):
             out.add("C16")
         if w in ("decode",):
             out.add("C03")
+        if w == "addr" and k == "call" and not label_m and m not in ("EmitBytes", "Comment", "AssumeREP", "AssumeSEP"):
+            out.add("C07")   # PC() is how the assembler reports instruction starts
         if w in ("bytes", "n", "addr", "code", "refused_spurious"):
             if m == "EmitBytes":
                 out.add("C19")
